@@ -33,7 +33,8 @@ CHECKS = {
     },
     "C08": {
         "runs": [dict(RELUTIL, entries=["H08Partition", "H08Order"], bounds_quick={"files": 1, "docs": 2, "kinds": 5, "odocs": 3}, bounds_thorough={"files": 2, "docs": 2, "kinds": 7, "odocs": 4},
-                      optional_sites=["partition/partials-never-applied"])],
+                      optional_sites=["partition/partials-never-applied"]),
+                 dict(pkg="./pkg/kube", files=["pkg/kube/h_c02_update.go", "pkg/kube/h_c08_barrier.go"], entries=["H08Barrier"], bounds_quick={"objects": 3}, bounds_thorough={"objects": 4})],
         "bounds": {}, "assumptions": [],
     },
     "C15": {
@@ -44,7 +45,12 @@ CHECKS = {
         "runs": [dict(LOADER, entries=["H16Names", "H16Size"], bounds_quick={"namelen": 6, "maxsize": 40, "entries": 2}, bounds_thorough={"namelen": 8, "maxsize": 40, "entries": 3},
                       optional_sites=["size/requested-within-remaining-budget"]),
                  dict(pkg="./pkg/plugin/installer", files=["pkg/plugin/installer/h_c16_cleanjoin.go"], entries=["H16CleanJoin"],
-                      bounds_quick={"destlen": 5}, bounds_thorough={"destlen": 7})],
+                      bounds_quick={"destlen": 5}, bounds_thorough={"destlen": 7}),
+                 dict(pkg="./pkg/plugin/installer", files=["pkg/plugin/installer/h_c16_cleanjoin.go", "pkg/plugin/installer/h_c16_extract.go"], entries=["H16Extract"],
+                      bounds_quick={"xentries": 2, "xnamelen": 3}, bounds_thorough={"xentries": 2, "xnamelen": 5}),
+                 dict(pkg="./pkg/chart/v2/util", files=["pkg/chart/v2/util/h_c16_expand.go"], entries=["H16Expand"],
+                      bounds_quick={"xpnamelen": 4, "xpfilelen": 3}, bounds_thorough={"xpnamelen": 6, "xpfilelen": 4}),
+                 dict(pkg="./pkg/downloader", files=["pkg/downloader/h_c16_lock.go"], entries=["H16Lock"])],
         "bounds": {}, "assumptions": [],
     },
     # engine self-test (setup_cmd): a harness with a deliberately false assertion must yield a
